@@ -5057,7 +5057,12 @@ func (l *Lowerer) evalLiteralAsInt(lit *parser.Literal) (ir.ScalarKind, int64, e
 // evalConstantIdent resolves a named constant to its integer value.
 // Checks abstract constants, module-level constants, and local constants.
 func (l *Lowerer) evalConstantIdent(name string) (ir.ScalarKind, int64, error) {
-	// Check abstract constants first (not in module.Constants)
+	// A const declared inside the function shadows a module-scope one.
+	if exprHandle, ok := l.locals[name]; ok {
+		return l.evalExpressionAsConstantInt(exprHandle)
+	}
+
+	// Check abstract constants (not in module.Constants)
 	if info, ok := l.abstractConstants[name]; ok && info.scalarValue != nil {
 		sv := info.scalarValue
 		switch sv.Kind {
@@ -5099,11 +5104,6 @@ func (l *Lowerer) evalConstantIdent(name string) (ir.ScalarKind, int64, error) {
 		default:
 			return 0, 0, fmt.Errorf("'%s' must be an integer constant, got %v", name, sv.Kind)
 		}
-	}
-
-	// Check local constants (const declarations inside functions)
-	if exprHandle, ok := l.locals[name]; ok {
-		return l.evalExpressionAsConstantInt(exprHandle)
 	}
 
 	return 0, 0, fmt.Errorf("'%s' is not a known constant", name)
